@@ -12,10 +12,6 @@ type clipperD struct {
 }
 
 func NewClipperD(decimalPrecision int) *clipperD {
-	if decimalPrecision == 0 {
-		decimalPrecision = 2
-	}
-
 	if decimalPrecision < -8 || decimalPrecision > 8 {
 		panic(ErrPrecisionRange)
 	}
